@@ -38,6 +38,10 @@ func propC04(p *Prog, r *Report) {
 	c04Recovery(p, r, "C04.e")
 	r.Rule("C04.g", "recovery first: in both constructors Load (error-gated) precedes the scheduling of the collector, and the records recovery drops are handed to the cleaner")
 	c04CtorOrder(p, r, "C04.g")
+	r.Rule("C04.h", "durable before acknowledged in the Badger layer: every write transaction is a synchronous DB.Update (or an explicit transaction whose Commit error is consumed); CommitWith and write batches are not used")
+	c04SyncCommit(p, r, "C04.h")
+	r.Rule("C04.i", "what recovery reads is what was written: bytes of Badger iterator items (Item.Key(), the value handed to Item.Value's callback) are copied before they leave the iteration (= C19.f)")
+	c19IteratorCopies(p, r, "C04.i")
 }
 
 func c04DeleteOrder(p *Prog, r *Report, rule string) {
